@@ -182,7 +182,7 @@ B_RLV = ["none", "true", "raise_exc", "false"]
 B_SUB = ["absent", "noop", "raise", "pred_raise", "pred_false", "take_waitfor", "take_async", "observe_async", "unsub_self"]
 HOOKS = (("packet", B_PACKET), ("lludp", B_LLUDP), ("rlv", B_RLV), ("session_sub", B_SUB), ("region_sub", B_SUB))
 DEFAULT = {"packet": "none", "lludp": "none", "rlv": "none", "session_sub": "absent", "region_sub": "absent"}
-MSG_KINDS = ["v2s_rel", "s2v_unrel", "v2s_cmd", "s2v_rlv1", "s2v_rlv3", "s2v_rel_acks"]
+MSG_KINDS = ["v2s_rel", "s2v_unrel", "v2s_cmd", "s2v_rlv1", "s2v_rlv3", "s2v_rel_acks", "s2v_rlv0"]
 
 
 class _Custom(Exception):
@@ -346,6 +346,13 @@ def run_program(program):
             return orig_send(message, transport)
         circuit._send_prepared_message = spy
 
+        # the proxy itself has one reliable packet outstanding toward the simulator: collecting the ack for it is part of "the
+        # proxy's own bookkeeping", whatever the addons do with the message that carries the ack
+        rec.cur = "inject"
+        inj = Message("AgentPause", Block("AgentData", AgentID=sess.agent_id, SessionID=sess.id, SerialNum=1), direction=Direction.OUT)
+        inj_fut = circuit.send_reliable(inj)
+        inj_pid = inj.packet_id
+
         # observer: first subscriber on the session handler, captures the message object of each datagram
         def observer(msg):
             rec.messages.setdefault(rec.cur, msg)
@@ -409,7 +416,12 @@ def run_program(program):
                 direction, pid, reliable = "in", pid_in, False
             elif kind == "s2v_rel_acks":
                 pid_in += 1
-                case = _chat_s2v(pid_in, True, "m%d" % k, 1, acks=(11,))
+                case = _chat_s2v(pid_in, True, "m%d" % k, 1, acks=(inj_pid,))
+                direction, pid, reliable = "in", pid_in, True
+            elif kind == "s2v_rlv0":
+                # owner chat that starts like an RLV line but carries no command: nobody claims it, it is ordinary traffic
+                pid_in += 1
+                case = _chat_s2v(pid_in, True, "@" if k % 2 else "@,", 8)
                 direction, pid, reliable = "in", pid_in, True
             elif kind in ("s2v_rlv1", "s2v_rlv3"):
                 pid_in += 1
@@ -442,6 +454,9 @@ def run_program(program):
             if got_packet != reached_packet:
                 out.append(("isolation:packet-hooks", "message %d (%s): handle_proxied_packet ran for addons %r, expected %r (programs %r)" % (
                     k, kind, got_packet, reached_packet, [a.prog["packet"] for a in addons])))
+            if kind == "s2v_rel_acks" and not claimed_at_packet and not inj_fut.done():
+                out.append(("bookkeeping:ack-not-collected", "message %d carried the ack for the proxy's own reliable packet %d but it is still "
+                            "outstanding (lludp hooks %r)" % (k, inj_pid, [a.prog["lludp"] for a in addons])))
             if claimed_at_packet:
                 if new_em:
                     out.append(("claimed-but-emitted:packet", "message %d claimed by handle_proxied_packet but %d emissions" % (k, len(new_em))))
@@ -567,7 +582,7 @@ def program_from(placements, kinds):
 
 
 STREAMS = [["v2s_rel", "s2v_unrel", "v2s_rel"], ["s2v_rlv1", "v2s_rel", "s2v_rlv3"], ["v2s_cmd", "s2v_rel_acks", "v2s_rel"],
-           ["s2v_rel_acks", "s2v_rlv3", "s2v_unrel"]]
+           ["s2v_rel_acks", "s2v_rlv3", "s2v_unrel"], ["s2v_rlv0", "v2s_rel", "s2v_rlv0"]]
 
 
 def shards(tier):
@@ -580,7 +595,7 @@ def shards(tier):
     for i in range(16):
         sh.append({"kind": "single", "lo": i, "step": 16})
     for i in range(48):
-        sh.append({"kind": "pairs", "lo": i, "step": 48, "streams": 4 if th else 2})
+        sh.append({"kind": "pairs", "lo": i, "step": 48, "streams": 5 if th else 2})
     for i in range(8):
         sh.append({"kind": "random", "n": 4000 if th else 100})
     return sh
@@ -617,7 +632,7 @@ def run_shard(ctx, shard):
         cls = Counter()
         sample = None
         for placements in work:
-            for stream in STREAMS[:shard.get("streams", 4)]:
+            for stream in STREAMS[:shard.get("streams", 5)]:
                 prog = program_from(placements, stream)
                 res, classes = run_program(prog)
                 n += 1
